@@ -1,7 +1,7 @@
 """C31  Serialised and pickled objects reflect current state and round-trip."""
 import ast
 from ..loader import dotted, walk_no_nested, norm, head, calls_in
-from ..q import nodes_calling, const_sets, value_atom
+from ..q import nodes_calling, const_sets, value_atom, resolve_local
 from ..typestate import scenario_edges
 
 EXPLANATION = """
@@ -32,6 +32,7 @@ def run(ctx):
     rets = [s for s in walk_no_nested(rc.node) if isinstance(s, ast.Return)]
     ctx.need(len(rets) == 1, 'C31: _reduce_composite_pk has %d returns' % len(rets))
     v = rets[0].value
+    if isinstance(v, ast.Call) and len(v.args) == 1: v = ast.Call(func=v.func, args=[resolve_local(rc.node, v.args[0])], keywords=v.keywords)     # parts built into a local first
     ok, why = False, 'not of the form SEP.join(<escape chain over str(item)> for item in pk)'
     if isinstance(v, ast.Call) and isinstance(v.func, ast.Attribute) and v.func.attr == 'join' and isinstance(v.func.value, ast.Constant) \
             and len(v.args) == 1 and isinstance(v.args[0], (ast.GeneratorExp, ast.ListComp)):
